@@ -69,6 +69,33 @@ def main():
             info.append(s)
         c.nontriv(s["id"])
     c.sample({"model": base[2]["build"], "partitions": ["default", "ignore", "N", "alt", "N+alt", "random linear"]})
+    # several ranks: blocks, operators and parts are computed by different ranks and exchanged; on EVERY rank the observables must be
+    # the same function of (model, beta, arguments) under every partition (the single-rank observations above are the references)
+    NR = 3
+    rmods = [m["id"] for m in base[:5]] + ([m["id"] for m in base[5:11]] if thorough else [])
+    sub = [(mid, pn, s) for (mid, pn, s) in plan if mid in rmods and pn in ("default", "ignore", "N", "N+alt")]
+    per, done, rc, err = pv.run_driver_ranks(exe, [s for (_, _, s) in sub], NR, timeout=1500)
+    c.extra["rank_tier"] = {"ranks": NR, "scenarios": len(sub)}
+    if min(done) < len(sub):
+        c.violation("%d ranks: the run did not complete (rc=%s): %s" % (NR, rc, err[-300:].replace("\n", " | ")), {"ranks": NR, "scenario": sub[min(min(done), len(sub) - 1)][2]}, cls="ranks:termination")
+    for rk in range(NR):
+        rb = {}
+        for r in per[rk]:
+            if r.get("e") == "Q":
+                rb.setdefault(r["id"], []).append(r)
+        for (mid, pn, s) in sub:
+            if s["id"] not in rb:
+                continue
+            c.evaluations += 1
+            try:
+                o = obs.collect(rb[s["id"]])
+            except Exception as ex:
+                c.violation("%d ranks, rank %d: %s under partition %s: %s" % (NR, rk, mid, json.dumps(s["partition"]), ex), dict(s, ranks=NR, rank=rk), cls="ranks:exception")
+                continue
+            for e in obs.events(mid, "%s@rank%d/%d" % (pn, rk, NR), o):
+                lines.append(e)
+                info.append(dict(s, ranks=NR, rank=rk))
+            c.nontriv("%s@np%d" % (s["id"], NR))
     pos, guard = 0, 0
     while pos < len(lines) and guard < 60:
         guard += 1
